@@ -72,7 +72,7 @@ fn stores_cmp(m: &Value, f: &Facts, on: bool) -> Option<String> {
 }
 
 pub fn run(ctx: &mut Ctx, rep: &mut Report) {
-    rep.rule = "case = one run of a simulated honest history (stream-free generated scripts, 3-5 peers, random schedules); the model gets the real parser's AST and the decoded real inputs; \
+    rep.rule = "case = one run of a simulated honest history (generated scripts: scalars, streams, stream maps, canon streams / canon maps with lenses; 3-5 peers, random schedules); the model gets the real parser's AST and the decoded real inputs; \
         compared: return code, message, result trace, last request id, next peers (set), call requests (service, function, arguments, tetraplets), key sets of the CID stores; \
         non-trivial = run whose trace has at least 2 entries; distinct by hash of (script, inputs)".into();
     let mut rng = Rng::new(ctx.seed ^ 0xE8EC);
@@ -81,8 +81,9 @@ pub fn run(ctx: &mut Ctx, rep: &mut Report) {
         let budget = 6 + rng.below(12);
         let streams = std::env::var("AQUA_EXECCORR_STREAMS").map(|v| v != "0").unwrap_or(true) && rng.chance(1, 2);
         let h = gen_history(&mut rng, streams, false, budget, 50);
-        let ast = match air_parser::parse(&h.air) { Ok(a) => serde_json::to_value(&a).unwrap(), Err(_) => { rep.stat("script_does_not_parse"); continue; } };
+        let ast = match air_parser::parse(&h.air) { Ok(a) => serde_json::to_value(&a).unwrap(), Err(e) => { rep.stat("script_does_not_parse"); if std::env::var("AQUA_EXECCORR_DEBUG").is_ok() { eprintln!("PARSE {}\n   {}", e.lines().nth(2).unwrap_or("").chars().take(200).collect::<String>(), h.air.chars().take(3000).collect::<String>()); } continue; } };
         note_history(rep, &h);
+        let feats = h.script.map_features();
         for st in &h.net.log {
             if st.outcome.ret_code == PANIC_CODE { continue; }
             let req = exec_request(&h.net, st, &ast);
@@ -92,6 +93,8 @@ pub fn run(ctx: &mut Ctx, rep: &mut Report) {
             let m = ctx.driver.ask(&req);
             if let Some(u) = m.get("unmodelled") { rep.unmodelled += 1; rep.stat(&format!("unmodelled:{}", u.as_str().unwrap_or("?").chars().take(40).collect::<String>())); continue; }
             rep.model_compared += 1;
+            for ft in &feats { rep.stat(&format!("compared_runs_with_{ft}")); }
+            if !feats.is_empty() { rep.stat("compared_runs_with_maps_or_canon_lenses"); }
             if m.get("panic").is_some() { rep.disagree(json!({"op": "exec", "why": "model panics, implementation does not", "model": m, "air": h.air, "step": step_json(&h.net, st)})); continue; }
             if let Some(why) = compare_exec(&m, &h.net, st) {
                 rep.disagree(json!({"op": "exec", "why": why, "air": h.air, "step": step_json(&h.net, st), "model_code": m["code"], "model_msg": m["msg"], "model_detail": m["detail"]}));
